@@ -553,6 +553,29 @@ pub struct Case31 {
     /// Some(d): the target is a chain of d nested guards (LIMIT_SOFTFORK clause)
     pub nest_depth: Option<u32>,
     pub entropy: EntropyPlan,
+    /// the costs declared by the softfork guards of the target, read from the program text
+    #[serde(default)]
+    pub declared: Vec<u64>,
+    /// chain cases: one guard's declared cost was changed on purpose after calibration
+    #[serde(default)]
+    pub spoiled: bool,
+}
+
+/// the declared costs (first softfork argument) of the generated guards of a program
+fn declared_costs(g: &GenProg) -> Vec<u64> {
+    g.guard_cost_atoms
+        .iter()
+        .filter_map(|i| match &g.prog.nodes[*i as usize] {
+            SxNode::A(b) if b.len() <= 9 => {
+                let mut v: u64 = 0;
+                for x in b {
+                    v = (v << 8) | *x as u64;
+                }
+                Some(v)
+            }
+            _ => None,
+        })
+        .collect()
 }
 
 /// (softfork COST EXT (q . INNER) ENV)
@@ -610,6 +633,23 @@ impl Scenario for C31 {
             let base = prog::random_flags(rng, true, false) & !(F_NO_UNKNOWN_OPS | F_LIMIT_SOFTFORK);
             let mut g = nested_chain(depth, rng.below(2) as u32);
             prog::calibrate_guards(&mut g, base);
+            // a third of the chains: one guard declares a different cost than it consumes
+            let mut spoiled = false;
+            if rng.chance(1, 3) && !g.guard_cost_atoms.is_empty() {
+                let idx = g.guard_cost_atoms[rng.usize(g.guard_cost_atoms.len())];
+                if let SxNode::A(b) = &g.prog.nodes[idx as usize] {
+                    let mut v: i128 = 0;
+                    for x in b {
+                        v = (v << 8) | *x as i128;
+                    }
+                    let nv = v + *rng.pick(&[1i128, 1, 2, 40, 1000, -1]);
+                    if nv > 0 && nv != v {
+                        g.prog.nodes[idx as usize] = SxNode::A(int_bytes(nv));
+                        spoiled = true;
+                    }
+                }
+            }
+            let declared = declared_costs(&g);
             let flags = if rng.chance(3, 4) { base | F_LIMIT_SOFTFORK } else { base };
             return Case31 {
                 first: None,
@@ -622,6 +662,8 @@ impl Scenario for C31 {
                 guard_slots: 0,
                 nest_depth: Some(depth),
                 entropy,
+                declared,
+                spoiled,
             };
         }
         let mut cfg = ProgCfg::swarm(rng);
@@ -677,6 +719,7 @@ impl Scenario for C31 {
         let (mut g, slots) = build(rng);
         prog::calibrate_guards(&mut g, flags);
         prog::spoil_guard_costs(rng, &mut g, 5);
+        let declared = declared_costs(&g);
         // optional first run aborted inside a guard
         let mut first = None;
         let mut heap_limit = None;
@@ -752,6 +795,8 @@ impl Scenario for C31 {
             guard_slots: slots,
             nest_depth: None,
             entropy,
+            declared,
+            spoiled: false,
         }
     }
 
@@ -812,6 +857,15 @@ impl Scenario for C31 {
                     exempt,
                 } => {
                     maxdepth = maxdepth.max(*depth);
+                    // a guard is held to the cost the program declares for it, not to anything else
+                    let held = expected_cost.wrapping_sub(*cost);
+                    if !*exempt && !case.declared.is_empty() && !case.declared.contains(&held) {
+                        out.fail(Violation::new(
+                            "guard-held-to-declared-cost",
+                            format!("a guard entered at cost {cost} is held to {held}, which no softfork call of the program declares (declared: {:?})", &case.declared[..case.declared.len().min(8)]),
+                        ));
+                        return fin(out, fp);
+                    }
                     stack.push(Open {
                         atoms: *atoms,
                         pairs: *pairs,
@@ -883,6 +937,23 @@ impl Scenario for C31 {
             out.count("probe.guard_values_checked", case.guard_slots as u64);
         }
         // --- nesting limit
+        if let Some(depth) = case.nest_depth
+            && case.spoiled
+        {
+            out.count("fault.chain_cost_spoiled", 1);
+            if !flags.contains(ClvmFlags::NEW_COST_MODEL) && !(flags.contains(ClvmFlags::LIMIT_SOFTFORK) && depth > 20) {
+                // every guard of the chain executes, none is cost-exempt: the run cannot succeed
+                if let Ok((c, _, _)) = &r.res {
+                    out.fail(Violation::new(
+                        "guard-consumes-declared-cost",
+                        format!("a chain of {depth} guards in which one declares a cost it does not consume ran to completion (cost {c})"),
+                    ));
+                    return fin(out, fp);
+                }
+            }
+            out.nontrivial = true;
+            return fin(out, fp);
+        }
         if let Some(depth) = case.nest_depth {
             let limited = flags.contains(ClvmFlags::LIMIT_SOFTFORK);
             out.count(&format!("probe.nest_depth.{}", if depth > 20 { "over20" } else if depth == 20 { "exactly20" } else { "below20" }), 1);
@@ -950,7 +1021,7 @@ impl Scenario for C31 {
         json!({"target": case.target.prog.brief(240), "flags": format!("{:#x}", case.flags), "first_run_budget": case.first.as_ref().map(|f| f.1), "heap_limit": case.heap_limit, "nest_depth": case.nest_depth})
     }
     fn rule() -> &'static str {
-        "case = seeded program whose value exposes guard results ((c GUARD (q . ())) wrappers; guards nested up to 4 by the generator, extensions 0 and 1, both cost models, measured declared costs with 5% left wrong on purpose), optionally preceded on the same allocator by another guarded program aborted by a budget that strikes between a guard's enter and exit probe, optionally on a heap-limited allocator; 1/8 of the cases are chains of 1..25 nested guards with and without LIMIT_SOFTFORK. Oracles from the guard-enter / guard-exit probes: counters at exit equal counters at entry; cost consumed equals the declared cost unless the probe marks the guard cost-exempt (only possible under NEW_COST_MODEL); guard positions in the result hold nil; depth 21+ fails with the stack-depth error under LIMIT_SOFTFORK while 20 succeeds. Non-trivial: at least one guard completed."
+        "case = seeded program whose value exposes guard results ((c GUARD (q . ())) wrappers; guards nested up to 4 by the generator, extensions 0 and 1, both cost models, measured declared costs with 5% left wrong on purpose), optionally preceded on the same allocator by another guarded program aborted by a budget that strikes between a guard's enter and exit probe, optionally on a heap-limited allocator; 1/8 of the cases are chains of 1..25 nested guards with and without LIMIT_SOFTFORK. Oracles from the guard-enter / guard-exit probes: counters at exit equal counters at entry; cost consumed equals the declared cost unless the probe marks the guard cost-exempt (only possible under NEW_COST_MODEL); every non-exempt guard is held to a cost that a softfork call of the program text declares; guard positions in the result hold nil; a chain in which one guard's declared cost was changed after calibration never completes (old cost model); depth 21+ fails with the stack-depth error under LIMIT_SOFTFORK while 20 succeeds. Non-trivial: at least one guard completed."
     }
     fn default_runs(tier: Tier) -> u64 {
         match tier {
@@ -976,6 +1047,7 @@ impl Scenario for C31 {
             "fault.first_run_aborted_inside_guard",
             "probe.nest_depth.over20",
             "probe.nest_depth.exactly20",
+            "fault.chain_cost_spoiled",
         ]
     }
 }
